@@ -158,7 +158,7 @@ def r2(repo, run):
         if True:
             # (with_defaults: every named parameter declares a default - what a gap in the positions is bound to does not depend on it:
             # `!bind f {1: x}` must leave parameter 0 open for the caller, not fill in its default)
-            if with_defaults and (thorough() or not any(isinstance(k_, int) for k_ in args)):
+            if with_defaults and not any(isinstance(k_, int) for k_ in args):
                 continue
             params = {}
             for name, kind in sig:
